@@ -179,12 +179,15 @@ def inline_new_helpers(modules):
                     continue
                 # the single call site
                 site = None
+                sites = []
                 if is_method:
-                    if attr_refs.get(helper.name, 0) != 1 or name_refs.get(helper.name, 0) != 0:
+                    nrefs = attr_refs.get(helper.name, 0)
+                    if not (1 <= nrefs <= 4) or name_refs.get(helper.name, 0) != 0:
                         continue
                     callers = [(q2, f2) for q2, f2, _, c2 in fns if c2 is cls and f2 is not helper]
                 else:
-                    if name_refs.get(helper.name, 0) != 1 or attr_refs.get(helper.name, 0) != 0:
+                    nrefs = name_refs.get(helper.name, 0)
+                    if not (1 <= nrefs <= 4) or attr_refs.get(helper.name, 0) != 0:
                         continue
                     callers = [(q2, f2) for q2, f2, _, c2 in fns if f2 is not helper]
                 for q2, caller in callers:
@@ -208,14 +211,13 @@ def inline_new_helpers(modules):
                             else:
                                 if not (isinstance(call.func, ast.Name) and call.func.id == helper.name):
                                     continue
-                            site = (q2, caller, body, i, st, call)
-                            break
-                        if site:
-                            break
-                    if site:
-                        break
-                if site is None:
+                            if not any(x[4] is st for x in sites):
+                                sites.append((q2, caller, body, i, st, call))
+                # every reference to the helper must be such a call (a helper shared by a few places of its class / module is put back at each of them, one per
+                # round; the definition goes with the last one)
+                if len(sites) != nrefs or (nrefs > 1 and sum(1 for st_ in hbody for _ in ast.walk(st_)) > 400):
                     continue
+                site = sites[0]
                 q2, caller, body, i, st, call = site
                 if any(isinstance(a, ast.Starred) for a in call.args) or any(k.arg is None for k in call.keywords):
                     continue
@@ -307,9 +309,10 @@ def inline_new_helpers(modules):
                             x.lineno, x.end_lineno = st.lineno, getattr(st, "end_lineno", st.lineno)
                             x.col_offset, x.end_col_offset = st.col_offset, getattr(st, "end_col_offset", st.col_offset)
                 body[i:i + 1] = repl
-                owner_body.remove(helper)
-                if not owner_body:
-                    owner_body.append(ast.Pass())
+                if nrefs == 1:
+                    owner_body.remove(helper)
+                    if not owner_body:
+                        owner_body.append(ast.Pass())
                 done.append((qn, q2))
                 changed = True
                 break           # reference counts are stale now: recompute
